@@ -6,5 +6,5 @@ CONSTANTS
   Level = "core"
   RecordHist = FALSE
 INVARIANTS TypeOK Consistent TableTotal CloseThenOpen
-PROPERTIES AllAnswered CloseAnswered
+PROPERTIES AllAnswered CloseAnswered ErrKeepsState
 CHECK_DEADLOCK FALSE
